@@ -129,6 +129,59 @@ def run_layout(layout):
     return out
 
 
+def hand_registered(layout):
+    """a plain dataclasses.dataclass registered by hand with the default AutoEntry and NO explicit entries: its flatten returns all
+    __init__ fields in order, so integer entry i must address the i-th __init__ field (DataclassEntry with an int entry)"""
+    if not layout or not any(d['init'] for d in layout):
+        return []
+    counter[0] += 1
+    name = f'HR{counter[0]}'
+    specs = []
+    for i, d in enumerate(layout):
+        kw = {}
+        if d['dflt']:
+            kw['default'] = None
+        if not d['init']:
+            kw['init'] = False
+        if d['kwonly']:
+            kw['kw_only'] = True
+        specs.append((f'f{i}', object, dataclasses.field(**kw)))
+    try:
+        cls = dataclasses.make_dataclass(name, specs)
+    except Exception:   # noqa: BLE001
+        return []
+    init_names = [f.name for f in dataclasses.fields(cls) if f.init]
+
+    def fl(o):
+        return tuple(getattr(o, n) for n in init_names), None
+
+    def un(_, children):
+        return cls(**dict(zip(init_names, children)))
+    ns = 'dc-hand'
+    optree.register_pytree_node(cls, fl, un, namespace=ns)
+    try:
+        kwargs = {n: L(int(n[1:]) * 10 + 1) for n in init_names}
+        obj = cls(**kwargs)
+        accs, leaves, spec = optree.tree_flatten_with_accessor(obj, namespace=ns)
+        hits = []
+        for a in accs:
+            try:
+                hits.append(a(obj) is leaves[len(hits)])
+            except Exception:   # noqa: BLE001
+                hits.append(False)
+        codes = []
+        for a, l in zip(accs, leaves):
+            try:
+                codes.append(eval(a.codify('t'), {'t': obj}) is l)   # noqa: S307
+            except Exception:   # noqa: BLE001
+                codes.append(False)
+        return [{'op': 'dataclass-hand', 'layout': layout, 'entry_class': accs[0][0].__class__.__name__ if accs else 'DataclassEntry',
+                 'entries_are_ints': all(isinstance(e, int) for e in spec.entries()), 'accessor_hits': hits, 'codify_hits': codes,
+                 'fields': [a[0].field if hasattr(a[0], 'field') else None for a in accs], 'init_names': init_names}]
+    finally:
+        optree.unregister_pytree_node(cls, namespace=ns)
+
+
 def _same(a, b):
     if a is b:
         return True
@@ -214,7 +267,8 @@ def main():
     inp, outp = sys.argv[1], sys.argv[2]
     with open(outp, 'w') as fh:
         for line in open(inp):
-            for c in run_layout(json.loads(line)['layout']):
+            lay = json.loads(line)['layout']
+            for c in run_layout(lay) + hand_registered(lay):
                 fh.write(json.dumps(c) + '\n')
         for c in partial_cases():
             fh.write(json.dumps(c) + '\n')
